@@ -586,7 +586,10 @@ def _expected_rows(segments: List[List[Stub]], sp) -> Dict[int, Dict[str, Option
 def eval_table_v2(chk, ta, segments: List[List[Stub]]) -> Dict[int, Dict[str, Any]]:
     repo = chk.repo
     pd = Stub("pandas", DataFrame=_DF)
-    env = {"self": Stub("structure", connected_residues=segments), "pd": pd, "pandas": pd, "np": _np_stub(), "numpy": _np_stub(), "calculate_torsion_angle": _tor_stub}
+    glob = {"pd": pd, "pandas": pd, "np": _np_stub(), "numpy": _np_stub(), "calculate_torsion_angle": _tor_stub}
+    # `self` stands for the structure: the segments are given, other members of the class the function calls (helpers, static methods) are interpreted
+    me = ClassStub(repo, T2, "Structure", {"connected_residues": segments}, glob, label="structure")
+    env = dict(glob, self=me, Structure=me)
     body = [s for s in ta.node.body if not (isinstance(s, ast.Expr) and isinstance(s.value, ast.Constant))]
     kind, val = BlockEvalX(repo, T2, env).run(body)
     if kind != "return":
